@@ -23,7 +23,7 @@ const (
 	NClasses
 )
 
-var classNames = [...]string{"valid", "len0", "len1-63", "len65-1024", "wrong-serial", "serial0", "wrong-function", "wrong-protocol", "protocol-0x19", "malformed"}
+var classNames = [...]string{"valid", "len0", "len1-63", "len65-4096", "wrong-serial", "serial0", "wrong-function", "wrong-protocol", "protocol-0x19", "malformed"}
 
 func (c Class) String() string { return classNames[c] }
 
@@ -135,6 +135,9 @@ func (r R) Datagram(op *rm.Op, serial uint32, args rm.Vals, c Class, marker uint
 		n := 65 + r.Pick(960)
 		if r.Chance(0.3) {
 			n = []int{65, 66, 128, 1024}[r.Pick(4)]
+		}
+		if r.Chance(0.15) {
+			n = []int{1025, 2047, 2048, 2049, 2050, 3000, 4096}[r.Pick(7)] // longer than the library's receive buffers: still just a datagram of the wrong length
 		}
 		return append(m, make([]byte, n-64)...)
 	case WrongSerial:
